@@ -1064,7 +1064,9 @@ def pad_edge(array, pad_width, mode, **kwargs):
             pad_slices[1][d] = slice(-1, None, None)
             pad_slices = [tuple(sl) for sl in pad_slices]
 
-            pad_arrays = [result[sl] for sl in pad_slices]
+            # the edge is one element thick: keep it in a single chunk along
+            # this axis even if the array has zero-length chunks there
+            pad_arrays = [result[sl].rechunk({d: -1}) for sl in pad_slices]
 
             if mode == "edge":
                 pad_arrays = [
